@@ -1050,6 +1050,7 @@ class Models:
         t["<core::ptr::NonNull as core::convert::From<&mut T>>::from"] = self.identity
         t["core::mem::MaybeUninit::assume_init"] = self.mu_assume_init
         t["core::mem::MaybeUninit::assume_init_read"] = self.mu_assume_init_read
+        t["core::mem::MaybeUninit::assume_init_drop"] = self.drop_in_place
         t["core::mem::MaybeUninit::uninit"] = self.mu_uninit
         t["core::mem::swap"] = self.mem_swap
         t["core::ptr::swap"] = self.mem_swap
@@ -1065,6 +1066,7 @@ class Models:
         t["alloc::boxed::Box::into_raw"] = self.box_into_raw
         t["alloc::boxed::Box::from_raw"] = self.box_from_raw
         t["alloc::boxed::Box::leak"] = self.box_into_raw
+        t["core::ptr::NonNull::new"] = self.nn_new
         t["core::ptr::null_mut"] = self.null
         t["core::ptr::null"] = self.null
         t["core::cmp::Ord::max"] = None
@@ -1076,7 +1078,9 @@ class Models:
         t["bool::then"] = self.bool_then
         for q in ("<I as core::iter::Iterator>::for_each", "core::iter::Iterator::for_each"):
             t[q] = self.iter_for_each
-        t["core::iter::Iterator::map"] = None
+        t["core::iter::Iterator::map"] = self.iter_map
+        t["<core::cmp::Ordering as core::cmp::PartialEq>::eq"] = self.ordering_eq
+        t["<core::cmp::Ordering as core::cmp::PartialEq>::ne"] = self.ordering_eq
 
     def lookup(self, q, info):
         if q is None:
@@ -1110,6 +1114,14 @@ class Models:
                 return None
         if q == "core::cmp::Ord::max" or q.endswith("as core::cmp::Ord>::max"):
             return None
+        if name in ("eq", "ne") and "PartialEq" in q and len(info["args"]) == 2 and all("core::cmp::Ordering" in (t or "") for t in info["arg_tys"]):
+            return self.ordering_eq
+        if q.endswith(" as core::cmp::Ord>::cmp") and q[1:].split(" ")[0] in INT_TYS and len(info["args"]) == 2:
+            return self.int_cmp
+        if q.endswith(" as core::convert::From>::from") and len(info["args"]) == 1 and info["arg_tys"][0] == "bool" and info["dty"] in INT_TYS:
+            return self.int_from_bool
+        if q.endswith(("Iterator>::next", "Iterator::next")) and len(info["args"]) == 1:
+            return self.iter_next_lazy
         # integer min / saturating_sub are case splits (the same two paths as the if-form they abbreviate)
         if info["dty"] in INT_TYS and len(info["args"]) == 2:
             if q in ("core::cmp::min", "core::cmp::Ord::min") or q.endswith("as core::cmp::Ord>::min"):
@@ -1150,6 +1162,55 @@ class Models:
             if s2 is not None:
                 outs.append((s2, val))
         return outs
+
+    ORDERING = {"Less": -1, "Equal": 0, "Greater": 1}
+
+    def _ordering(self, name):
+        return ("agg", "adt", ("core::cmp::Ordering", name), (), ())
+
+    def _ordering_of(self, v):
+        if isinstance(v, tuple) and v[0] == "agg" and v[1] == "adt" and v[2][0] == "core::cmp::Ordering" and v[2][1] in self.ORDERING:
+            return v[2][1]
+        ci = const_int(v) if isinstance(v, tuple) and v[0] == "const" and "Ordering" in str(v[1]) else None
+        if ci is not None:
+            ci = ci - 256 if ci > 127 else ci
+            for k, d in self.ORDERING.items():
+                if d == ci:
+                    return k
+        return None
+
+    def int_cmp(self, interp, st, fr, info):
+        """Ord::cmp on integers is the three-way case split it abbreviates"""
+        a, b = (interp.read(st, deref_loc(x)) for x in info["args"])
+        outs = []
+        s_lt = self.assume(interp, st.fork(), fr, ("bin", "Lt", a, b), True, info)
+        if s_lt is not None:
+            outs.append((s_lt, self._ordering("Less")))
+        s_ge = self.assume(interp, st, fr, ("bin", "Lt", a, b), False, info)
+        if s_ge is not None:
+            s_eq = self.assume(interp, s_ge.fork(), fr, ("bin", "Eq", a, b), True, info)
+            if s_eq is not None:
+                outs.append((s_eq, self._ordering("Equal")))
+            s_gt = self.assume(interp, s_ge, fr, ("bin", "Eq", a, b), False, info)
+            if s_gt is not None:
+                s_gt = self.assume(interp, s_gt, fr, ("bin", "Gt", a, b), True, info)
+            if s_gt is not None:
+                outs.append((s_gt, self._ordering("Greater")))
+        return outs
+
+    def ordering_eq(self, interp, st, fr, info):
+        a, b = (self._ordering_of(interp.read(st, deref_loc(x))) for x in info["args"])
+        if a is None or b is None:
+            return None
+        ne = info["q"].endswith("::ne")
+        return [(st, ("const", "bool", "1" if (a == b) != ne else "0"))]
+
+    def int_from_bool(self, interp, st, fr, info):
+        v = info["args"][0]
+        ci = const_int(v)
+        if ci is not None:
+            return [(st, ("const", info["dty"], str(ci)))]
+        return [(st, ("cast", "IntToInt", info["dty"], v))]
 
     def num_saturating_sub(self, interp, st, fr, info):
         a, b = info["args"]
@@ -1434,6 +1495,17 @@ class Models:
 
     def null(self, interp, st, fr, info):
         return [(st, ("const", "ptr", "null"))]
+
+    def nn_new(self, interp, st, fr, info):
+        """NonNull::new(p): None for the null pointer, Some(p) otherwise (a pointer read from a list link, a node or an allocation is
+        never null: I_list; anything else may be either)"""
+        p = info["args"][0]
+        if p == ("const", "ptr", "null"):
+            return [(st, NONE)]
+        if isinstance(p, tuple) and p[0] in ("load", "alloc", "node", "boxed"):
+            return [(st, some(p))]
+        s0 = st.fork()
+        return [(st, some(p)), (s0, NONE)]
 
     def nn_as_ref(self, interp, st, fr, info):
         # NonNull::as_ref(&self) / as_mut(&mut self): argument is a reference to the NonNull value
@@ -1974,6 +2046,46 @@ class Models:
                 else:
                     yield (s3, payload(interp, s3, rv, "Some"), cid)
 
+    # lazy adapters: `it.map(f)` is the pair (it, f); whoever draws an item from it draws one from `it` and applies `f`
+    def iter_map(self, interp, st, fr, info):
+        it, f = info["args"]
+        if not (isinstance(f, tuple) and f[0] == "agg" and f[1] == "closure"):
+            return None
+        return [(st, ("agg", "adt", ("core::iter::Map", None), (it, f), ("iter", "f")))]
+
+    @staticmethod
+    def _is_lazy_map(it):
+        return isinstance(it, tuple) and it[0] == "agg" and it[1] == "adt" and it[2][0] == "core::iter::Map" and len(it[3]) == 2
+
+    def _produce(self, interp, st, fr, it, cid, info):
+        """(state, item) for 'the iterator value `it` yields an item' (the item of a foreign source is opaque)"""
+        if self._is_lazy_map(it):
+            inner, f = it[3]
+            for s2, x in self._produce(interp, st, fr, inner, cid, info):
+                for s3, rv in interp.call_closure(s2, fr, f, self._closure_args(interp, f, x), info):
+                    yield (s3, rv)
+        else:
+            yield (st, ("iter_item", cid, it))
+
+    def iter_next_lazy(self, interp, st, fr, info):
+        """`next` on a lazy map adapter held in a local (for loops): exhausted, or one item of the source through the closure"""
+        r = info["args"][0]
+        if not (isinstance(r, tuple) and r[0] == "ref"):
+            return None
+        it = interp.read(st, deref_loc(r))
+        if not self._is_lazy_map(it):
+            return None
+        return self._next_lazy(interp, st, fr, it, info)
+
+    def _next_lazy(self, interp, st, fr, it, info):
+        cid = st.fresh()
+        interp.event(st, fr, {"ev": "call", "q": info["q"], "args": info["args"], "id": cid, "ln": info["ln"], "bb": info["bb"], "unwind": info["unwind"],
+                              "f": info["f"], "dty": info["dty"], "lazy_next": True})
+        s0 = st.fork()
+        yield (s0, NONE)
+        for s2, x in self._produce(interp, st, fr, it, cid, info):
+            yield (s2, some(x))
+
     def iter_for_each(self, interp, st, fr, info):
         it, f = info["args"]
         if self._local_next(interp, info["arg_tys"][0]) is not None:
@@ -1999,9 +2111,12 @@ class Models:
             cargs = [item]
         else:
             cargs = [("proj", item, (str(i),)) for i in range(nargs)]
-        for s2, rv in interp.call_closure(st, fr, f, cargs, info):
-            interp.event(s2, fr, {"ev": "loop_end", "id": cid, "iters": 1})
-            yield (s2, ("unit",))
+        for s1, item1 in self._produce(interp, st, fr, it, cid, info):
+            if item1 != item:
+                cargs = [item1] if nargs == 1 else [("proj", item1, (str(i),)) for i in range(nargs)]
+            for s2, rv in interp.call_closure(s1, fr, f, cargs, info):
+                interp.event(s2, fr, {"ev": "loop_end", "id": cid, "iters": 1})
+                yield (s2, ("unit",))
 
     def _closure_args(self, interp, f, item, extra_first=()):
         body = interp.facts.body(f[2]) if isinstance(f, tuple) and f[0] == "agg" and f[1] == "closure" else None
@@ -2021,10 +2136,11 @@ class Models:
         s0 = st.fork()
         interp.event(s0, fr, {"ev": "loop_end", "id": cid, "iters": 0})
         yield (s0, ("const", "bool", "1" if is_all else "0"))
-        for s2, rv in interp.call_closure(st, fr, f, self._closure_args(interp, f, item), info):
-            for s3, truth in self._fork_bool(interp, s2, fr, rv, info):
-                interp.event(s3, fr, {"ev": "loop_end", "id": cid, "iters": 1})
-                yield (s3, ("const", "bool", "1" if truth else "0"))
+        for s1, item in self._produce(interp, st, fr, item[2], cid, info):
+            for s2, rv in interp.call_closure(s1, fr, f, self._closure_args(interp, f, item), info):
+                for s3, truth in self._fork_bool(interp, s2, fr, rv, info):
+                    interp.event(s3, fr, {"ev": "loop_end", "id": cid, "iters": 1})
+                    yield (s3, ("const", "bool", "1" if truth else "0"))
 
     def iter_fold(self, interp, st, fr, info):
         """Iterator::fold: no item -> the initial value; otherwise the closure's result on the last item, entered with an arbitrary
@@ -2041,9 +2157,10 @@ class Models:
         interp.event(st, fr, {"ev": "call", "q": "<fold accumulator>", "args": [init], "id": aid, "ln": info["ln"], "bb": info["bb"], "dty": info["dty"],
                               "unwind": None, "synthetic": True})
         acc = ("call", aid, "<fold accumulator>")
-        for s2, rv in interp.call_closure(st, fr, f, self._closure_args(interp, f, item, (acc,)), info):
-            interp.event(s2, fr, {"ev": "loop_end", "id": cid, "iters": 1})
-            yield (s2, rv)
+        for s1, item in self._produce(interp, st, fr, it, cid, info):
+            for s2, rv in interp.call_closure(s1, fr, f, self._closure_args(interp, f, item, (acc,)), info):
+                interp.event(s2, fr, {"ev": "loop_end", "id": cid, "iters": 1})
+                yield (s2, rv)
 
     # ---- HashMap<KeyRef<K>, NonNull<EntryNode>> and friends
     def _hm_recv(self, interp, st, info):
@@ -2152,7 +2269,7 @@ class Models:
         own = self._node_of_key(ks)
         cid = st.fresh()
         known = st.member.get((X, ks))
-        if known is None and own is not None and self.assume_consistent_eq and self._is_entry(st, X, own):
+        if known is None and own is not None and self.assume_consistent_eq and self.identify_own_key and self._is_entry(st, X, own):
             # pruning rule P1 applied to a node's own key: a list member's key is in that list's index (I_list)
             known = True
         if known is None and isinstance(ks, tuple) and ks[0] == "kv":
